@@ -5,7 +5,7 @@ from fractions import Fraction
 from common import coq_Z, coq_list, coq_nat
 
 RV = ["m", "k", "n", "p"]
-LEVELS = ["MainMemory", "GlobalBuffer", "LocalBuffer"]
+LEVELS = ["MainMemory", "GlobalBuffer", "LocalBuffer", "RegFile"]
 
 
 def coq_Q(q):
